@@ -28,25 +28,29 @@ Definition dec_tipstate (s : sexp) : option (string * bool * Z) :=
   | _ => None
   end.
 
+(** the clause, on the decoded fields *)
+Definition index_ok_data (g : utree) (idx : list string) (st : list (string * bool * Z)) (bs : list Z)
+  : option string :=
+  let tn := ssort (leaves g) in
+  if negb (list_eqb String.eqb idx tn)
+  then Some "the tip-name index is not the tip set of the resulting tree"
+  else if negb (list_eqb String.eqb (ssort (map (fun x => fst (fst x)) st)) tn)
+  then Some "Tips() is not the tip set of the resulting tree"
+  else if negb (forallb (fun x => snd (fst x) &&
+                                  match rank_of (fst (fst x)) tn with
+                                  | Some r => Z.eqb (snd x) r
+                                  | None => false
+                                  end) st)
+  then Some "a tip is not found through the name index, or its id is not its rank in the sorted tip names"
+  else if negb (forallb (fun w => Z.eqb w (Z.of_nat (length tn))) bs)
+  then Some "a branch has no bitset of the width of the tip index"
+  else None.
+
 Definition index_ok (g : utree) (o : sexp) : option string :=
   match get_strings "tipidx" o,
         (x <- get "tipstate" o ;; dec_list dec_tipstate x),
         (x <- get "bitsets" o ;; dec_list dec_Z x) with
-  | Some idx, Some st, Some bs =>
-    let tn := ssort (leaves g) in
-    if negb (list_eqb String.eqb idx tn)
-    then Some "the tip-name index is not the tip set of the resulting tree"
-    else if negb (list_eqb String.eqb (ssort (map (fun x => fst (fst x)) st)) tn)
-    then Some "Tips() is not the tip set of the resulting tree"
-    else if negb (forallb (fun x => snd (fst x) &&
-                                    match rank_of (fst (fst x)) tn with
-                                    | Some r => Z.eqb (snd x) r
-                                    | None => false
-                                    end) st)
-    then Some "a tip is not found through the name index, or its id is not its rank in the sorted tip names"
-    else if negb (forallb (fun w => Z.eqb w (Z.of_nat (length tn))) bs)
-    then Some "a branch has no bitset of the width of the tip index"
-    else None
+  | Some idx, Some st, Some bs => index_ok_data g idx st bs
   | _, _, _ => Some "no index state in the observation"
   end.
 
